@@ -187,6 +187,25 @@ def _raw_quantity(e: ast.AST) -> str | None:
                 conv = True
             if isinstance(y, ast.Call) and ("convert" in dotted(y.func).lower() or dotted(y.func).rsplit(".", 1)[-1] in ("len", "bool", "isinstance", "str")):
                 conv = True
+            if isinstance(y, ast.comprehension) and child is y.iter and id(y) in par:
+                # the quantity is what a comprehension iterates over: what flows on is its element expression - converted when the
+                # loop variable only occurs there inside a converter call (`[convert(m) for m in <memories>]`)
+                comp = par[id(y)]
+                elts = [comp.key, comp.value] if isinstance(comp, ast.DictComp) else [getattr(comp, "elt", None)]
+                tnames = {t.id for t in ast.walk(y.target) if isinstance(t, ast.Name)}
+                raw_here = False
+                for el in [e_ for e_ in elts if e_ is not None]:
+                    ep = {id(c_): p_ for p_ in ast.walk(el) for c_ in ast.iter_child_nodes(p_)}
+                    for nm in [n_ for n_ in ast.walk(el) if isinstance(n_, ast.Name) and n_.id in tnames]:
+                        z: ast.AST = nm
+                        wrapped = False
+                        while id(z) in ep:
+                            z = ep[id(z)]
+                            if isinstance(z, ast.Call) and ("convert" in dotted(z.func).lower() or dotted(z.func).rsplit(".", 1)[-1] in ("len", "bool", "isinstance", "str")):
+                                wrapped = True
+                        raw_here = raw_here or not wrapped
+                if not raw_here:
+                    conv = True
         if not conv:
             return q
     return None
